@@ -4,6 +4,7 @@ import (
 	"bytes"
 	"encoding/base64"
 	"fmt"
+	"math"
 	"reflect"
 	"runtime"
 	"strings"
@@ -117,8 +118,16 @@ func genC12(t *rapid.T) C12Case {
 	if c.Limit != 0 && rapid.IntRange(0, 3).Draw(t, "oddLimit") == 0 {
 		c.Limit = rapid.Int64Range(5000, 40000).Draw(t, "limitFree")
 	}
+	huge := rapid.IntRange(0, 9).Draw(t, "hugeLimit") == 0
+	if huge {
+		// "no limit" spelled as a very large number: an ordinary message is within it
+		c.Limit = rapid.SampledFrom([]int64{math.MaxInt64, math.MaxInt64 - 1, 1 << 62, 1 << 40}).Draw(t, "limitHuge")
+	}
 	L := effLimit(c.Limit)
 	c.Relation = rapid.SampledFrom([]string{"L-1", "L", "L+1", "2L", "64L", "1000L", "bomb", "small"}).Draw(t, "relation")
+	if huge {
+		c.Relation = "small"
+	}
 	if L == defaultLimit && (c.Relation == "64L" || c.Relation == "1000L") {
 		c.Relation = "bomb" // keep the quick tier cheap; bomb covers huge ratios
 	}
@@ -353,6 +362,11 @@ func TestC12_Grid(t *testing.T) {
 			if kind == "response" || h.Thorough() {
 				cases = append(cases, C12Case{Limit: l, Size: bomb, Payload: "run", Kind: kind, Level: 9, Relation: "bomb"})
 			}
+		}
+	}
+	for _, l := range []int64{math.MaxInt64, math.MaxInt64 - 1, 1 << 62, 1 << 33} {
+		for i, kind := range []string{"response", "LogoutRequest", "LogoutResponse"} {
+			cases = append(cases, C12Case{Limit: l, Size: int64(len(c12BaseXML(kind)) + 100 + i), Payload: "valid-padded", Kind: kind, Level: []int{6, 0, 9}[i], Relation: "small"})
 		}
 	}
 	h.RunCases(t, "C12", cases, checkC12)
